@@ -1,6 +1,329 @@
 package checks
 
-// Dump round trip (C19 part c) — filled in once the session checks exist.
-func runC19Dumps(c *Ctx) {}
+import (
+	"fmt"
+	"os"
+	"regexp"
+	"sort"
+	"strings"
 
-func c19DumpReplay(c *Ctx, w *Witness) (string, string) { return "", "" }
+	"github.com/reeflective/readline"
+	"github.com/reeflective/readline/inputrc"
+
+	"verif/internal/harness"
+)
+
+// Dump round trip (C19 part c).
+//
+// For every generated configuration (an inputrc text that plants one key sequence bound to
+// a command, one key sequence bound to a macro body, or one variable value, in emacs or vi
+// insert keymap) the REAL dump commands are run in inputrc format (numeric argument set)
+// inside the real Readline loop; their terminal output is cut out of the raw output stream,
+// parsed back with the real parser into a fresh configuration, and compared with the
+// configuration of a Shell built in the driver process from the same inputrc text:
+//   dump-functions : the command binds of the current keymap are reproduced exactly
+//   dump-macros    : the macro binds of the current keymap are reproduced exactly
+//   dump-variables : every variable is reproduced with the same value
+
+var c19Seqs = []string{
+	`\C-xa`, `\e[A`, `\M-q`, `\C-x\"`, `\C-x\\`, `\C-x\C-?`, `\C-x\C-@`, `\C-x `, `\C-x#`, `\C-x:`, `\C-x'`,
+	`\C-x\e`, `\C-x\C-x\C-x`, `\C-xé`, `\C-x中`, `\C-x\C-j`, `\C-x\C-m`, `\C-x\t`, `\M-\C-x`, `\C-x\x80`, `\C-x\xff`,
+	`\C-x-`, `\C-xC-`, `\C-x\\C-a`, `\C-xM-`, `\C-x\d`, `\C-x\a`, `\C-x\b`, `\C-x\f`, `\C-x\v`, `\C-x\101`, `\C-x\x41`,
+}
+
+var c19Bodies = []string{
+	`abc`, `a b`, `say \"hi\"`, `back\\slash`, `\C-a\C-k`, `\e[A`, `é中`, `tab\there`, `line\nfeed`, `cr\rhere`, `it's`, `#hash`, `colon: x`,
+	`\M-x`, `\x80\xff`, `\C-?`, `\C-@x`, ` lead`, `trail `, `a\"`, `\\`, `C-a`, `\\C-a`, `$x`,
+}
+
+type c19Var struct{ name, value string }
+
+var c19Vars = []c19Var{
+	{"bell-style", "visible"}, {"comment-begin", "# "}, {"comment-begin", "//"}, {"comment-begin", `a\"b`}, {"comment-begin", `x\\y`},
+	{"completion-query-items", "7"}, {"completion-prefix-display-length", "3"}, {"history-size", "-1"}, {"history-size", "0"}, {"keyseq-timeout", "1000"},
+	{"isearch-terminators", `\C-g\C-]`}, {"isearch-terminators", "ab"}, {"emacs-mode-string", "@@"}, {"vi-ins-mode-string", "(ins) x"}, {"vi-cmd-mode-string", `\1\e[1m\2cmd`},
+	{"active-region-start-color", `\e[01;33m`}, {"active-region-end-color", `\e[0m`}, {"completion-ignore-case", "on"}, {"show-all-if-ambiguous", "on"},
+	{"convert-meta", "off"}, {"input-meta", "on"}, {"output-meta", "on"}, {"history-autosuggest", "on"}, {"usage-hint-always", "on"}, {"autocomplete", "on"},
+	{"cursor-style", "block"}, {"multiline-column-custom", "| "}, {"prompt-transient", "on"}, {"search-ignore-case", "off"},
+}
+
+var c19LineRe = regexp.MustCompile(`^(".*": .+|set \S+ .*|set \S+ ?)$`)
+
+// c19DumpText cuts the dump lines out of the raw output of a call: the dump is a run of
+// complete lines, each starting right after a newline; the redisplay residue around it
+// (escape sequences, prompt) never forms a line of one of the two shapes.
+func c19DumpText(raw string) string {
+	var out []string
+	for _, l := range strings.Split(raw, "\n") {
+		l = strings.TrimRight(l, "\r")
+		if c19LineRe.MatchString(l) {
+			out = append(out, l)
+		}
+	}
+	return strings.Join(out, "\n") + "\n"
+}
+
+func c19DriverConfig(c *Ctx, rc string) (*inputrc.Config, map[string]func()) {
+	path := c.Scratch + "/driver-rc"
+	os.WriteFile(path, []byte(rc), 0o644)
+	os.Setenv("INPUTRC", path)
+	os.Setenv("HOME", "/nonexistent")
+	sh := readline.NewShell()
+	return sh.Config, sh.Keymap.Commands()
+}
+
+type c19DumpCase struct {
+	Name  string
+	RC    string
+	Which string // functions | macros | variables
+	Vi    bool
+}
+
+func c19DumpJob(cs *c19DumpCase) harness.Job {
+	rc := cs.RC + "\"\\C-x\\C-]f\": dump-functions\n\"\\C-x\\C-]v\": dump-variables\n\"\\C-x\\C-]m\": dump-macros\n"
+	key := map[string]string{"functions": "f", "macros": "m", "variables": "v"}[cs.Which]
+	var keys []harness.Answer
+	if cs.Vi {
+		// numeric argument in vi insert mode: through the bound digit-argument of emacs-meta is not available;
+		// use the universal way: ESC to command mode, "1", then the dump key bound in vi-command as well
+		keys = Keys("\x1b", "1", "\x18\x1d"+key)
+	} else {
+		keys = Keys("\x1b1", "\x18\x1d"+key)
+	}
+	return harness.Job{Cfg: harness.Config{RC: rc, W: 200, H: 50, Prompt: "> ", NoHist: true}, Calls: [][]harness.Answer{append(keys, harness.Answer{End: true})},
+		Want: harness.Want{Raw: true, SkipScreen: true}}
+}
+
+// c19DumpVerdict compares what the dump reproduces with the configuration itself.
+func c19DumpVerdict(c *Ctx, cs *c19DumpCase, t *harness.Trace) (fp, what string) {
+	call := LastCall(t)
+	if call.Outcome != "aborted" && call.Outcome != "returned" {
+		return "", "not judged (C01): " + call.Outcome + "@" + call.Site
+	}
+	text := c19DumpText(call.Raw)
+	rc := cs.RC + "\"\\C-x\\C-]f\": dump-functions\n\"\\C-x\\C-]v\": dump-variables\n\"\\C-x\\C-]m\": dump-macros\n"
+	ref, commands := c19DriverConfig(c, rc)
+	km := "emacs"
+	if cs.Vi {
+		km = "vi-command"
+	}
+	// parse the dump back into an empty configuration
+	back := inputrc.NewConfig()
+	for k := range back.Binds {
+		back.Binds[k] = map[string]inputrc.Bind{}
+	}
+	if cs.Which == "variables" {
+		back = inputrc.NewDefaultConfig()
+	}
+	pre := "set keymap " + km + "\n"
+	if err := inputrc.ParseBytes([]byte(pre+text), back, inputrc.WithName("dump"), inputrc.WithApp("")); err != nil {
+		return "dump-does-not-parse/" + cs.Which, fmt.Sprintf("parsing the output of dump-%s fails: %v; output:\n%s", cs.Which, err, text)
+	}
+	switch cs.Which {
+	case "functions", "macros":
+		wantMacro := cs.Which == "macros"
+		want := map[string]string{}
+		for seq, b := range ref.Binds[km] {
+			if _, registered := commands[b.Action]; b.Macro == wantMacro && (b.Macro || registered) {
+				// binds to function names this library does not implement (bash-only names of the
+				// default tables) are not printed by dump-functions and are not part of the comparison
+				want[seq] = b.Action
+			}
+		}
+		got := map[string]string{}
+		for seq, b := range back.Binds[km] {
+			if b.Macro != wantMacro {
+				return "dump-changes-bind-kind/" + cs.Which, fmt.Sprintf("dump-%s prints %q as the other kind of bind (%+v)", cs.Which, seq, b)
+			}
+			got[seq] = b.Action
+		}
+		var diffs []string
+		for seq, a := range want {
+			if g, ok := got[seq]; !ok {
+				diffs = append(diffs, fmt.Sprintf("missing %q -> %q", seq, a))
+			} else if g != a {
+				diffs = append(diffs, fmt.Sprintf("%q -> %q, configured %q", seq, g, a))
+			}
+		}
+		for seq, g := range got {
+			if _, ok := want[seq]; !ok {
+				diffs = append(diffs, fmt.Sprintf("extra %q -> %q", seq, g))
+			}
+		}
+		if len(diffs) > 0 {
+			sort.Strings(diffs)
+			if len(diffs) > 6 {
+				diffs = append(diffs[:6], fmt.Sprintf("... %d more", len(diffs)-6))
+			}
+			return "dump-roundtrip-differs/" + cs.Which, fmt.Sprintf("parsing the output of dump-%s back does not reproduce the %s binds of keymap %s: %s", cs.Which, cs.Which, km, strings.Join(diffs, "; "))
+		}
+	case "variables":
+		// one verdict per class of value that is not reproduced; the first in a fixed order is returned,
+		// the others are available through c19VarDiffs
+		if d := c19VarDiffs(ref, back); len(d) > 0 {
+			c19LastVarDiffs = d
+			return d[0].fp, d[0].what
+		}
+	}
+	return "", ""
+}
+
+type c19Diff struct{ fp, what string }
+
+// c19ValueClass names why a string value may not survive: the fingerprint of a finding is the
+// class of the value, not the variable that happens to hold it.
+func c19ValueClass(v string) string {
+	switch {
+	case v == "":
+		return "empty"
+	case strings.ContainsAny(v, " \t"):
+		return "contains-blank"
+	case strings.HasPrefix(v, "#"):
+		return "starts-with-hash"
+	case strings.IndexFunc(v, func(r rune) bool { return r < 0x20 || r == 0x7f }) >= 0:
+		return "contains-control-character"
+	case strings.HasPrefix(v, "\"") || strings.HasPrefix(v, "'"):
+		return "starts-with-quote"
+	}
+	return "plain"
+}
+
+func c19VarDiffs(ref, back *inputrc.Config) []c19Diff {
+	var names []string
+	for name := range ref.Vars {
+		names = append(names, name)
+	}
+	sort.Strings(names)
+	seen := map[string]bool{}
+	var out []c19Diff
+	for _, name := range names {
+		v := ref.Vars[name]
+		g, ok := back.Vars[name]
+		if ok && fmt.Sprint(g) == fmt.Sprint(v) && fmt.Sprintf("%T", g) == fmt.Sprintf("%T", v) {
+			continue
+		}
+		cls := ""
+		switch x := v.(type) {
+		case bool:
+			cls = "bool"
+		case int:
+			cls = "int"
+		case string:
+			cls = "string/" + c19ValueClass(x)
+		}
+		fp := "dump-roundtrip-differs/variables/" + cls
+		if seen[fp] {
+			continue
+		}
+		seen[fp] = true
+		out = append(out, c19Diff{fp, fmt.Sprintf("parsing the output of dump-variables back does not reproduce variable %s: configured %q (%T), dumped and parsed back %q (%T)", name, fmt.Sprint(v), v, fmt.Sprint(g), g)})
+	}
+	sort.Slice(out, func(i, j int) bool { return out[i].fp < out[j].fp })
+	return out
+}
+
+// c19DumpVerdicts lists every distinct finding of one case (variables can yield several).
+func c19DumpVerdicts(c *Ctx, cs *c19DumpCase, t *harness.Trace) []c19Diff {
+	fp, what := c19DumpVerdict(c, cs, t)
+	if fp == "" && what == "" {
+		return nil
+	}
+	if cs.Which != "variables" || !strings.HasPrefix(fp, "dump-roundtrip-differs/variables/") {
+		return []c19Diff{{fp, what}}
+	}
+	return c19LastVarDiffs
+}
+
+var c19LastVarDiffs []c19Diff
+
+func c19DumpCases() []c19DumpCase {
+	var out []c19DumpCase
+	for _, vi := range []bool{false, true} {
+		mode := ""
+		tag := "emacs"
+		if vi {
+			mode = "set editing-mode vi\nset keymap vi-command\n"
+			tag = "vi"
+		}
+		// in vi the dump keys must exist in vi-command; the fixed binds are appended under the same keymap
+		out = append(out, c19DumpCase{Name: tag + "/defaults/functions", RC: mode, Which: "functions", Vi: vi})
+		out = append(out, c19DumpCase{Name: tag + "/defaults/macros", RC: mode, Which: "macros", Vi: vi})
+		out = append(out, c19DumpCase{Name: tag + "/defaults/variables", RC: mode, Which: "variables", Vi: vi})
+		for _, s := range c19Seqs {
+			out = append(out, c19DumpCase{Name: tag + "/bind " + s, RC: mode + "\"" + s + "\": forward-char\n", Which: "functions", Vi: vi})
+			out = append(out, c19DumpCase{Name: tag + "/macro-on " + s, RC: mode + "\"" + s + "\": \"xyz\"\n", Which: "macros", Vi: vi})
+		}
+		for _, b := range c19Bodies {
+			out = append(out, c19DumpCase{Name: tag + "/macro-body " + b, RC: mode + "\"\\C-xm\": \"" + b + "\"\n", Which: "macros", Vi: vi})
+		}
+		if !vi {
+			for _, v := range c19Vars {
+				out = append(out, c19DumpCase{Name: "var " + v.name + "=" + v.value, RC: "set " + v.name + " " + v.value + "\n", Which: "variables"})
+			}
+		}
+	}
+	return out
+}
+
+func runC19Dumps(c *Ctx) {
+	cases := c19DumpCases()
+	c.Bounds["dump_cases"] = len(cases)
+	jobs := make([]harness.Job, len(cases))
+	for i := range cases {
+		jobs[i] = c19DumpJob(&cases[i])
+		jobs[i].ID = i
+	}
+	c.Pool.Map(jobs, func(j *harness.Job, t *harness.Trace) {
+		cs := &cases[j.ID]
+		c.Evaluations++
+		c.Traces++
+		if t.Err != "" {
+			c.HarnessError(t.Err)
+			return
+		}
+		verdicts := c19DumpVerdicts(c, cs, t)
+		if len(verdicts) == 0 {
+			c.Outcome("dump/ok")
+			c.NontrivialN++
+			return
+		}
+		for _, v := range verdicts {
+			fp, what := v.fp, v.what
+			if fp == "" {
+				c.Outcome("dump/" + what)
+				continue
+			}
+			c.Outcome(fp)
+			if cd, ok := c.cands[fp]; ok {
+				cd.count++
+				continue
+			}
+			jj := *j
+			csCopy := *cs
+			c.Violate(Witness{Fingerprint: fp, Engine: "session", Job: &jj, Input: jsonRaw(csCopy), What: fmt.Sprintf("[%s] %s", cs.Name, what)}, func() string {
+				for _, v2 := range c19DumpVerdicts(c, &csCopy, c.Pool.RunOne(&jj)) {
+					if v2.fp == fp {
+						return fp
+					}
+				}
+				return ""
+			})
+		}
+	})
+	if len(cases) > 0 {
+		c.Sample(map[string]any{"dump_case": cases[3].Name, "rc": cases[3].RC})
+	}
+}
+
+func c19DumpReplay(c *Ctx, w *Witness) (string, string) {
+	var cs c19DumpCase
+	jsonUnmarshal(w.Input, &cs)
+	t := c.Pool.RunOne(w.Job)
+	fp, what := "", ""
+	for _, v := range c19DumpVerdicts(c, &cs, t) {
+		if v.fp == w.Fingerprint || fp == "" {
+			fp, what = v.fp, v.what
+		}
+	}
+	return fmt.Sprintf("inputrc:\n%s\ndump output as the terminal received it:\n%s\n%s", cs.RC, c19DumpText(LastCall(t).Raw), what), fp
+}
